@@ -359,6 +359,11 @@ func checkCommon(c *fw.Ctx) {
 			}
 			return false, false
 		},
+		// any further test of the state key's text is an independent input: "begins with '@'" is
+		// all the rule may depend on
+		free: func(atom string) bool {
+			return strings.Contains(atom, "(gmsl.PDU).StateKey(param:event)") && !strings.Contains(atom, "gmsl.") || strings.HasPrefix(atom, "(strings.") && strings.Contains(atom, "(gmsl.PDU).StateKey(param:event)")
+		},
 	}
 	compareTable(c, rule, "room / sender / m.federate / membership / level / @-state-key", fn, 0, vars, ip, func(a asg) string {
 		switch {
@@ -379,6 +384,15 @@ func checkCommon(c *fw.Ctx) {
 			return "reject"
 		}, nil)
 	}
+}
+
+// entryValue normalises the outcome of a map-entry return (comma-ok or plain lookup).
+func entryValue(r fw.Row) string { return strings.TrimSuffix(r.Outcome, "#0") }
+
+// zeroTestOfEntry: a test of a looked-up level against zero (an independent input: whether an
+// entry is present, not whether it is zero, decides the defaulting).
+func zeroTestOfEntry(atom string) bool {
+	return strings.HasPrefix(atom, "(*recv.") && strings.HasSuffix(atom, " == 0)") && strings.Contains(atom, "[")
 }
 
 // checkLevels: userPowerLevel, UserLevel, EventLevel, NotificationLevel, Defaults.
@@ -410,36 +424,36 @@ func checkLevels(c *fw.Ctx) {
 			`(param:eventType == "m.room.third_party_invite")`: "tpi",
 			"*recv.Events[param:eventType]#1":                  "listed",
 			"param:isState":                                    "state",
-		}}
+		}, free: zeroTestOfEntry}
 		compareTable(c, rule, "required level of an event type", fn, 0, vars, ip, func(a asg) string {
 			switch {
 			case a["tpi"] == "true":
 				return "value:*recv.Invite"
 			case a["listed"] == "true":
-				return "value:*recv.Events[param:eventType]#0"
+				return "value:*recv.Events[param:eventType]"
 			case a["state"] == "true":
 				return "value:*recv.StateDefault"
 			}
 			return "value:*recv.EventsDefault"
-		}, nil)
+		}, entryValue)
 	}
 	if fn := mustFunc(c, rule, "(*PowerLevelContent).UserLevel"); fn != nil {
-		ip := &interp{bools: map[string]string{"*recv.Users[param:senderID]#1": "listed"}}
+		ip := &interp{bools: map[string]string{"*recv.Users[param:senderID]#1": "listed"}, free: zeroTestOfEntry}
 		compareTable(c, rule, "user level defaulting", fn, 0, []tvar{{"listed", tf}}, ip, func(a asg) string {
 			if a["listed"] == "true" {
-				return "value:*recv.Users[param:senderID]#0"
+				return "value:*recv.Users[param:senderID]"
 			}
 			return "value:*recv.UsersDefault"
-		}, nil)
+		}, entryValue)
 	}
 	if fn := mustFunc(c, rule, "(*PowerLevelContent).NotificationLevel"); fn != nil {
-		ip := &interp{bools: map[string]string{"*recv.Notifications[param:notification]#1": "listed"}}
+		ip := &interp{bools: map[string]string{"*recv.Notifications[param:notification]#1": "listed"}, free: zeroTestOfEntry}
 		compareTable(c, rule, "notification level defaulting", fn, 0, []tvar{{"listed", tf}}, ip, func(a asg) string {
 			if a["listed"] == "true" {
-				return "value:*recv.Notifications[param:notification]#0"
+				return "value:*recv.Notifications[param:notification]"
 			}
 			return "value:50"
-		}, nil)
+		}, entryValue)
 	}
 	// Defaults(): constant stores
 	if fn := mustFunc(c, rule, "(*PowerLevelContent).Defaults"); fn != nil {
